@@ -52,6 +52,13 @@ def run(e: Engine, rep: Report):
              'shared between messages')
     rep.tables.add('c16.MEMOISERS')
     p6(e, rep)
+    rep.rule('P7', 'policy objects do not share state: no class-level '
+             'mutable object of a policy class is changed in place through '
+             'self without __init__ giving each instance its own')
+    common.shared_state_rule(
+        e, rep, 'P7', ['slimta.policy'],
+        'rules added to one policy apply in every other instance - a '
+        'message is rewritten by the rules of another queue')
     rep.floor('P1', 5, 'split obligations')
 
 
